@@ -129,6 +129,28 @@ func init() {
 			return exprtools.NewWidthGadget(a, expr.Width(c.N))
 		},
 		oracle: func(c c11Case, a, _, _, _ *big.Int) (*big.Int, bool) { return ir.Adjust(a, expr.Width(c.N)), true }}
+	// composition of two width gadgets: (a adjusted to n1 bytes) adjusted to n2 bytes; N encodes n1*256+n2
+	gadgets["WidthGadget2"] = gadgetDef{arity: 1, outW: func(c c11Case) expr.Width { return expr.Width(c.N & 0xff) },
+		build: func(c c11Case, a, _, _, _ expr.Expr) expr.Expr {
+			return exprtools.NewWidthGadget(exprtools.NewWidthGadget(a, expr.Width(c.N>>8)), expr.Width(c.N&0xff))
+		},
+		oracle: func(c c11Case, a, _, _, _ *big.Int) (*big.Int, bool) {
+			return ir.Adjust(ir.Adjust(a, expr.Width(c.N>>8)), expr.Width(c.N&0xff)), true
+		}}
+	// a narrowed value selected by a wider conditional: BoolCond(b, gadget_n(a), 0, w)
+	gadgets["BoolCondNarrow"] = gadgetDef{arity: 2,
+		build: func(c c11Case, a, b, _, _ expr.Expr) expr.Expr {
+			return exprtools.BoolCond(b, exprtools.NewWidthGadget(a, expr.Width(c.N)), expr.Zero, W(c))
+		},
+		oracle: func(c c11Case, a, b, _, _ *big.Int) (*big.Int, bool) {
+			if c.WB > c.W {
+				return nil, false
+			}
+			if b.Sign() == 0 {
+				return new(big.Int), true
+			}
+			return ir.Adjust(ir.Adjust(a, expr.Width(c.N)), W(c)), true
+		}}
 	bin("Sub", exprtools.Sub, func(a, b *big.Int, w expr.Width) *big.Int { return umod(new(big.Int).Sub(a, b), w) })
 	bin("Mod", exprtools.Mod, func(a, b *big.Int, w expr.Width) *big.Int {
 		if b.Sign() == 0 {
@@ -279,10 +301,10 @@ func c11Run(c c11Case) (*eng.Fail, bool) {
 }
 
 func init() {
-	names := []string{"Negate", "Abs", "BitNot", "Ones", "IntNegative", "Bool", "Not", "BoolCond", "WidthGadget", "Sub", "Mod",
+	names := []string{"Negate", "Abs", "BitNot", "Ones", "IntNegative", "Bool", "Not", "BoolCond", "WidthGadget", "WidthGadget2", "BoolCondNarrow", "Sub", "Mod",
 		"BitAnd", "BitOr", "BitXor", "RshA", "SignedMul", "SignedDiv", "SignedMod", "SignExtend", "MaskBits", "Eq", "Leu", "Lts", "Les"}
 	checks["C11"] = eng.Check{
-		Rule: "every exported gadget constructor of pkg/expr/exprtools, evaluated (1) on constants through the real ConstFold and (2) on register loads through the independent evaluator, against big-integer definitions of the documented functions: ALL 65536 operand pairs at width 1 (all 8 sign bits, all 0..8 mask counts, all shift amounts), boundary alphabets at widths 2,3,4,8,16 (SignedMul also 32,64,127) with operands of width w and — for the unsigned/bitwise gadgets — w-1 and w+1. Non-trivial = case inside the gadget's documented domain.",
+		Rule: "every exported gadget constructor of pkg/expr/exprtools (plus two compositions: a width gadget of a width gadget, and a narrowed value selected by a wider BoolCond), evaluated (1) on constants through the real ConstFold and (2) on register loads through the independent evaluator, against big-integer definitions of the documented functions: ALL 65536 operand pairs at width 1 (all 8 sign bits, all 0..8 mask counts, all shift amounts), boundary alphabets at widths 2,3,4,8,16 (SignedMul also 32,64,127) with operands of width w and — for the unsigned/bitwise gadgets — w-1 and w+1. Non-trivial = case inside the gadget's documented domain.",
 		Assumptions: []string{
 			"signed gadgets (SignedMul/Div/Mod) are only judged with operands exactly w wide; SignExtend only with sign bit < 8w; MaskBits only with count <= 8w; BoolCond only with a condition not wider than w (documented preconditions)",
 			"IntNegative is judged as zero / non-zero",
@@ -312,6 +334,16 @@ func init() {
 					return out
 				case "WidthGadget":
 					return []int{1, 2, 3, w, w + 1}
+				case "WidthGadget2":
+					var out []int
+					for _, n1 := range []int{1, 2, 3, w, w + 1} {
+						for _, n2 := range []int{1, 2, 3, w, w + 2} {
+							out = append(out, n1<<8|n2)
+						}
+					}
+					return out
+				case "BoolCondNarrow":
+					return []int{1, 2, w}
 				}
 				return []int{0}
 			}
